@@ -259,6 +259,7 @@ def run(tier):
                 unusable.append(o["id"])
     rp.cov["depth_drivers_unusable"] = sorted(set(u[6:].split("@")[0] for u in unusable))
     viol_seen, known_seen = {}, {}
+    failed_inputs = set()
     reached, shapes = set(), {}
     rejected = 0
     stats = {"stage": {}, "codes": {}, "failing_observations": 0, "panics": 0, "class": {}}
@@ -284,6 +285,7 @@ def run(tier):
             for kind, detail in oracle(o, ep):
                 if kind == "panic":
                     continue   # crashes are C01's subject; counted in evidence
+                failed_inputs.add(o["id"])
                 cand = attribute(an, ob, kind, o["stage"], ep["name"])
                 X = xrw if kind == "cause_unreachable" else xfam
                 if cand and all(c in X for c in cand):
@@ -347,9 +349,9 @@ def run(tier):
         else:
             rp.obligation("correspondence: evaluation of observed chain shapes in Coq", False, err[-300:])
             rp.violation({"kind": "correspondence", "broken": "coq evaluation of observed shapes", "log": err[-2000:]}, "shape_eval", no_input=True)
-    for pr in (coq_bad if coq_bad is not None else py_bad):
+    for pr in (coq_bad if coq_bad is not None else py_bad)[:3]:
         iid, epn = shapes[pr]
-        already = any(v.get("input_id") == iid for v in viol_seen.values())
+        already = iid in failed_inputs
         rp.violation({"kind": "correspondence", "broken": "observed Unwrap chain shape is not derivable from the error-site table at this entry point",
                       "entry_point": epn, "node": pr[0], "shape": list(pr[1]), "sql": srcs[iid].get("sql"), "input_id": iid,
                       "explanation": "the model (site table regenerated from source) does not predict this error shape: the translator misses a flow, or the code builds errors in a way the table does not describe"},
